@@ -155,7 +155,7 @@ pub fn run(run: &mut Run) -> PResult {
     run.generator("0, all single bits, all two-bit values", "exhaustive", Some(n), n, n, "64 single bits (52 cards, 12 overflow), 2,016 pairs, empty, full");
     run.sample(json!({"set": "0x8000000000000", "card": card::render(CKCNumber::from_binary_card(1 << 51))}));
     run.sample(json!({"set": "0x3", "card": card::render(CKCNumber::from_binary_card(3)), "note": "two bits: blank"}));
-    let cases = if run.tier == Tier::Thorough { 2_000_000 } else { 200_000 };
+    let cases = (if run.tier == Tier::Thorough { 2_000_000 } else { 200_000 }) / if run.is_twin() { 4 } else { 1 };
     let cnt = std::cell::Cell::new(0u64);
     let distinct = std::cell::RefCell::new(engine::Distinct::new());
     // a set of bit positions, optionally complemented: reaches every population count and shrinks
